@@ -112,7 +112,7 @@ class SelfObj:
             try:
                 node = interp.mod.find(q)
             except Unsupported:
-                continue
+                node = None
             import ast
             if isinstance(node, ast.FunctionDef):
                 decos = [ast.unparse(d) for d in node.decorator_list]
@@ -125,7 +125,7 @@ class SelfObj:
                 return fn.bind(self)
             try:
                 return interp.mod.class_attr(cls, k)
-            except Unsupported:
+            except (Unsupported, ValueError):
                 pass
         raise AttributeError(k)
 
@@ -176,7 +176,7 @@ class ClassRef:
             try:
                 node = interp.mod.find(q)
             except Unsupported:
-                continue
+                node = None
             import ast
             if isinstance(node, ast.FunctionDef):
                 decos = [ast.unparse(d) for d in node.decorator_list]
@@ -187,7 +187,7 @@ class ClassRef:
                 return fn
             try:
                 return interp.mod.class_attr(c, k)
-            except Unsupported:
+            except (Unsupported, ValueError):
                 pass
         raise AttributeError(k)
 
@@ -269,24 +269,52 @@ def _mk_range(sp):
 
 
 class EmptyFrame(_Generic):
-    """pd.DataFrame() / create_empty_motl_df(): zero rows"""
+    """pd.DataFrame() / create_empty_motl_df(): zero rows.  Assigning a column vector to an empty frame makes it take the
+    vector's rows (pandas: index of the Series / RangeIndex of the array); the other columns are NaN"""
 
     def __init__(self, cols):
         self.cols = cols
+        self._real = None
+
+    def __setitem__(self, k, v):
+        if self._real is None:
+            if not isinstance(v, GVec):
+                raise Unsupported("scalar/array assignment into an empty frame")
+            from .frames import ISNAN
+            cx = ctx()
+            row = {}
+            for c in self.cols:
+                t = cx.fresh(f"nan_{c}")
+                cx.assume(ISNAN(t))
+                row[c] = SV(t)
+            sp = v.space if v.kind == "series" else _mk_range(v.space)
+            self._real = GFrame(list(self.cols), row, sp, v.present)
+        self._real[k] = v
+
+    def __getattr__(self, k):
+        r = self.__dict__.get("_real")
+        if r is not None:
+            return getattr(r, k)
+        raise AttributeError(k)
+
+    def __getitem__(self, k):
+        if self._real is not None:
+            return self._real[k]
+        raise Unsupported("column of an empty frame")
 
     def fillna(self, *a, **k):
-        return self
+        return self._real.fillna(*a, **k) if self._real is not None else self
 
     def __sym_len__(self):
-        return 0
+        return self._real.__sym_len__() if self._real is not None else 0
 
     @property
     def shape(self):
-        return (0, len(self.cols))
+        return self._real.shape if self._real is not None else (0, len(self.cols))
 
     @property
     def columns(self):
-        return list(self.cols)
+        return self._real.columns if self._real is not None else list(self.cols)
 
 
 class ReNS:
